@@ -50,6 +50,8 @@ type result struct {
 	closeOrd  string
 	// lateAccepted: the pending Accept returned a connection only after the quiescent point had been inspected
 	lateAccepted bool
+	// openAtLastClose: the socket was still open at the instant the last Close call had returned (it was closed a moment later)
+	openAtLastClose bool
 }
 
 // bindable reports whether this process no longer holds a UDP socket bound to 127.0.0.1:port.
@@ -539,6 +541,15 @@ func runOne(sc *scen, st sched.Strategy, settle bool, hit map[int]bool) (rs resu
 		rs.key, rs.desc = k, d+" (second Close)"
 		return rs
 	}
+	// measurement: is the socket already closed at the instant the last Close call has returned?
+	// Every Close call (scheduled ones, the harness' own first and second round) has returned by now. The statement wants
+	// the socket closed "once the listener and every accepted connection have been closed": the last Close call waits
+	// for the closer goroutine on the unchanged tree (0 exceptions in 318 000 schedules under load), so a socket that is
+	// still open here means that no Close call waited for it.
+	if !bindable(port) {
+		rs.openAtLastClose = true
+		return fail("udp:socket-open-after-last-close", fmt.Sprintf("Close has returned on the listener and on every connection (order %q + remaining, twice), and the socket on port %d is still open in this process: no Close call waited for the socket to be closed", rs.closeOrd, port))
+	}
 	// the last reference may be dropped by two Close calls that both saw a stale connection count and did not wait: the
 	// closer goroutine then closes the socket on its own a moment later. Only a closer that is still parked on the
 	// reference count (three samples) with the socket open means the socket will never be closed.
@@ -667,6 +678,9 @@ func main() {
 			}
 		}
 		rs := runOne(sc, st, settle, hit)
+		if rs.openAtLastClose {
+			r.Count("socket_still_open_when_the_last_close_returned", 1)
+		}
 		if rs.lateAccepted {
 			r.Count("connections_returned_by_accept_after_the_quiescent_point", 1)
 		}
